@@ -803,6 +803,21 @@ func init() {
 			ln := e.st.BVu(uint64(n), e.intw)
 			return &SliceV{P: ptrTo(o, 0, e.st.True()), Len: ln, Cap: ln}
 		},
+		"vReaderBytesOfCall": func(e *Engine, fr *Frame, s *State, f *ssa.Function, args []Value, pos string) Value {
+			// the bytes the k-th reader call (counted from 0) will deliver, named before the call happens
+			k := constInt(args[0], "call index")
+			n := constInt(args[1], "byte count")
+			arr := types.NewArray(types.Typ[types.Uint8], int64(n))
+			o := e.allocTyped("rdbytes", ObjHarness, arr)
+			o.owner = s
+			s.born = append(s.born, o)
+			cells := s.cellsW(o)
+			for j := 0; j < n; j++ {
+				cells[j] = e.st.Sym(fmt.Sprintf("rd%d_b%d", k+1, j), BV(8))
+			}
+			ln := e.st.BVu(uint64(n), e.intw)
+			return &SliceV{P: ptrTo(o, 0, e.st.True()), Len: ln, Cap: ln}
+		},
 		"vForeignIface": func(e *Engine, fr *Frame, s *State, f *ssa.Function, args []Value, pos string) Value {
 			return &Iface{Dyn: e.stubType("foreign:" + constStr(args[0], "name"))}
 		},
